@@ -425,4 +425,116 @@ theorem afcmpWith_trans {α : Type} (lt : α → α → Bool) (zero : α) (frac 
             have a3 := tieBreak_trans a2 a1
             exact (tieBreak_neg a c).1.mpr a3
 
+/-! ### comparison through the cached key prefix (`_lx_sblk_cmp_key`) -/
+
+theorem cmp2_take_of_le (k v : Bytes) (n : Nat) (h : k.length ≤ n) : cmp2 k (v.take n) = cmp2 k v := by
+  induction k generalizing v n with
+  | nil => simp [cmp2]
+  | cons x xs ih =>
+    cases v with
+    | nil => simp
+    | cons y ys =>
+      cases n with
+      | zero => simp at h
+      | succ n =>
+        simp only [List.take_succ_cons, cmp2]
+        rw [ih ys n (by simpa using h)]
+
+theorem cmp2_take_ne (k v : Bytes) (n : Nat) (h : cmp2 k (v.take n) ≠ 0) : cmp2 k v = cmp2 k (v.take n) := by
+  induction k generalizing v n with
+  | nil => simp [cmp2]
+  | cons x xs ih =>
+    cases v with
+    | nil => simp
+    | cons y ys =>
+      cases n with
+      | zero => simp [cmp2] at h
+      | succ n =>
+        simp only [List.take_succ_cons, cmp2] at h ⊢
+        split
+        · rename_i e; simp only [e, if_true] at h; exact ih ys n h
+        · rfl
+
+/-- a lookup key shorter than the cached prefix: decided within the prefix, or both negative -/
+theorem tieBreak_take_short (k v : Bytes) (n : Nat) (h1 : k.length < n) (h2 : n ≤ v.length) :
+    (tieBreak k (v.take n) = tieBreak k v ∧ tieBreak k v ≠ 0) ∨ (tieBreak k (v.take n) < 0 ∧ tieBreak k v < 0) := by
+  have e := cmp2_take_of_le k v n (by omega)
+  have hl : (v.take n).length = n := by simp; omega
+  unfold tieBreak
+  simp only [e, hl]
+  by_cases hc : cmp2 k v = 0
+  · simp only [hc, if_true]; right; omega
+  · simp only [hc, if_false]; left; exact ⟨trivial, hc⟩
+
+theorem sgn_neg {i : Int} (h : i < 0) : sgn i = -1 := by unfold sgn; simp [h]
+
+/-- `_lx_sblk_cmp_key`, plain layout: same sign as the full-key comparison — for every cache length -/
+theorem lxCmp_plain_nc (full k : Bytes) (c2 : Nat) :
+    sgn (lxCmp .plain false full k c2) = sgn (cmpKeys .plain false full k c2) := by
+  unfold lxCmp
+  simp only [Bool.false_eq_true, if_false, Nat.add_zero, ne_eq, not_true_eq_false, or_false, decide_eq_true_eq]
+  by_cases hf : full.length ≤ Gen.PREFIX_KEY_LEN_V2
+  · simp only [hf, true_or, if_true, List.take_of_length_le hf]
+  · have hl : (full.take Gen.PREFIX_KEY_LEN_V2).length = Gen.PREFIX_KEY_LEN_V2 := by simp; omega
+    simp only [hf, false_or, hl]
+    by_cases hk : k.length < Gen.PREFIX_KEY_LEN_V2
+    · simp only [hk, if_true, cmpKeys_plain_nc]
+      rcases tieBreak_take_short k full _ hk (by omega) with ⟨h1, _⟩ | ⟨h1, h2⟩
+      · rw [h1]
+      · rw [sgn_neg h1, sgn_neg h2]
+    · simp only [hk, if_false]
+      have hp : cmpPrefix .plain false (full.take Gen.PREFIX_KEY_LEN_V2) k c2
+          = cmp2 k (full.take Gen.PREFIX_KEY_LEN_V2) := by simp [cmpPrefix]
+      rw [hp]
+      by_cases hr : cmp2 k (full.take Gen.PREFIX_KEY_LEN_V2) = 0
+      · simp only [hr, if_true]
+      · simp only [hr, if_false]
+        rw [cmpKeys_plain_nc, tieBreak, cmp2_take_ne k full _ hr]
+        simp only [hr, if_false]
+
+theorem cmpPrefix_plain_c (b1 : Bytes) (c1 : Nat) (k : Bytes) (c2 : Nat) (h : 1 ≤ b1.length) :
+    cmpPrefix .plain true (stored true b1 c1) k c2 = cmp2 k b1 := by
+  have hl : ((Vnum.enc c1 ++ b1).length : Int) - ((Vnum.enc c1).length : Int) = (b1.length : Int) := by
+    simp; omega
+  have : ¬ ((b1.length : Int) < 1) := by omega
+  simp only [cmpPrefix, stored, if_true, dec_stored, hl, List.drop_left, this, if_false]
+
+theorem take_stored (body : Bytes) (c1 n : Nat) (h : (Vnum.enc c1).length ≤ n) :
+    (stored true body c1).take n = stored true (body.take (n - (Vnum.enc c1).length)) c1 := by
+  simp only [stored, if_true, List.take_append, List.take_of_length_le h]
+
+/-- `_lx_sblk_cmp_key`, compound layout. The hypothesis `hS` excludes the defect of the C code: the
+    short-cut test `ksize < lkl` adds the vnum size of the LOOKUP key's compound part, but the body
+    cached in `lk` is shortened by the vnum size of the STORED key's compound part. -/
+theorem lxCmp_plain_c (body : Bytes) (c1 : Nat) (k : Bytes) (c2 : Nat)
+    (hL : (Vnum.enc c1).length < Gen.PREFIX_KEY_LEN_V2)
+    (hS : k.length + Vnum.size c2 < Gen.PREFIX_KEY_LEN_V2 →
+          k.length + (Vnum.enc c1).length < Gen.PREFIX_KEY_LEN_V2) :
+    sgn (lxCmp .plain true (stored true body c1) k c2)
+      = sgn (cmpKeys .plain true (stored true body c1) k c2) := by
+  unfold lxCmp
+  simp only [if_true, ne_eq, not_true_eq_false, or_false, decide_eq_true_eq]
+  rw [take_stored body c1 _ (by omega)]
+  generalize hP : Gen.PREFIX_KEY_LEN_V2 = P at *
+  generalize hLL : (Vnum.enc c1).length = L at *
+  have hfl : (stored true body c1).length = L + body.length := by simp [stored, hLL]
+  by_cases hf : (stored true body c1).length ≤ P
+  · have : body.take (P - L) = body := List.take_of_length_le (by omega)
+    simp only [hf, true_or, if_true, this]
+  · have hb : (body.take (P - L)).length = P - L := by simp; omega
+    have hl : (stored true (body.take (P - L)) c1).length = P := by simp [stored, hLL, hb]; omega
+    simp only [hf, false_or, hl]
+    by_cases hk : k.length + Vnum.size c2 < P
+    · simp only [hk, if_true, cmpKeys_plain_c]
+      rcases tieBreak_take_short k body (P - L) (by have := hS hk; omega) (by omega) with ⟨h1, h2⟩ | ⟨h1, h2⟩
+      · rw [h1]
+      · rw [if_neg (by omega), if_neg (by omega), sgn_neg h1, sgn_neg h2]
+    · simp only [hk, if_false]
+      rw [cmpPrefix_plain_c _ c1 k c2 (by omega)]
+      by_cases hr : cmp2 k (body.take (P - L)) = 0
+      · simp only [hr, if_true]
+      · simp only [hr, if_false]
+        rw [cmpKeys_plain_c, tieBreak, cmp2_take_ne k body _ hr]
+        simp only [hr, if_false]
+
 end IwModel.Cmp
